@@ -319,3 +319,208 @@ Proof.
     destruct (int_of_digits de (isnil_false _ _ Ee) He) as [z [-> _]]. eexists; reflexivity. }
   destruct (a >=? cl) eqn:E1; [reflexivity|lia].
 Qed.
+
+(* ---------- exactness for whole headers: several specs, optional white space ---------- *)
+
+(* a byte-range-spec as it may be spelled: ws* digits* '-' digits* ws* *)
+Record tspec := { w1 : str; sd : str; ed : str; w2 : str }.
+Definition wf_tspec (t : tspec) : Prop :=
+  forallb is_ws (w1 t) = true /\ all_digits (sd t) = true /\ all_digits (ed t) = true /\ forallb is_ws (w2 t) = true.
+Definition render (t : tspec) : str := w1 t ++ (sd t ++ DASH :: ed t) ++ w2 t.
+
+Fixpoint join_comma (l : list str) : str :=
+  match l with
+  | [] => []
+  | [a] => a
+  | a :: r => a ++ COMMA :: join_comma r
+  end.
+
+(* what RFC 7233 makes of one spec against a file of cl bytes *)
+Inductive verdict := VSkip | VInvalid | VSlice (p : Z * Z).
+Definition classify (cl : Z) (t : tspec) : verdict :=
+  match int_of (sd t), int_of (ed t) with
+  | Some a, Some b => if a >=? cl then VSkip                      (* unsatisfiable *)
+                      else if b <? a then VInvalid                 (* last < first *)
+                      else VSlice (a, Z.min b (cl - 1) + 1)
+  | Some a, None => if a >=? cl then VSkip else VSlice (a, cl)
+  | None, Some n => if (n =? 0) || (cl =? 0) then VSkip else VSlice (Z.max (cl - n) 0, cl)
+  | None, None => VInvalid                                        (* "-" *)
+  end.
+
+Fixpoint sem_loop (cl : Z) (ts : list tspec) (acc : list (Z * Z)) : ranges :=
+  match ts with
+  | [] => RList acc
+  | t :: r => match classify cl t with
+              | VSkip => sem_loop cl r acc
+              | VInvalid => RIgnore
+              | VSlice p => sem_loop cl r (add_unique p acc)
+              end
+  end.
+
+(* the "Issue #59" rejection of wildly different range lengths *)
+Definition finish (r : ranges) : ranges :=
+  match r with
+  | RList l => if (1 <? Z.of_nat (length l)) && too_spread (map (fun x => snd x - fst x) l) then RUnsat else RList l
+  | r => r
+  end.
+
+Lemma ws_facts : forall c, is_ws c = true ->
+  (c =? COMMA)%N = false /\ (c =? DASH)%N = false /\ is_digit c = false.
+Proof.
+  intros c H. repeat split.
+  - destruct (c =? COMMA)%N eqn:E; [|reflexivity]. apply N.eqb_eq in E. subst. discriminate.
+  - destruct (c =? DASH)%N eqn:E; [|reflexivity]. apply N.eqb_eq in E. subst. discriminate.
+  - destruct (is_digit c) eqn:E; [|reflexivity]. apply digit_facts in E. destruct E as [E _]. congruence.
+Qed.
+
+Lemma lstrip_ws_app : forall w x, forallb is_ws w = true -> lstrip_ws (w ++ x) = lstrip_ws x.
+Proof.
+  induction w as [|c w IH]; intros x H; simpl in *; [reflexivity|].
+  apply andb_true_iff in H as [Hc Hw]. rewrite Hc. apply IH. assumption.
+Qed.
+
+Lemma forallb_rev : forall (f : N -> bool) l, forallb f l = true -> forallb f (rev l) = true.
+Proof.
+  intros f l H. apply forallb_forall. intros x I. apply in_rev in I.
+  rewrite forallb_forall in H. apply H. assumption.
+Qed.
+
+Lemma strip_ws_core : forall w1 core w2, forallb is_ws w1 = true -> forallb is_ws w2 = true ->
+  core <> [] -> (forall c, In c core -> is_ws c = false) ->
+  strip_ws (w1 ++ core ++ w2) = core.
+Proof.
+  intros w1 core w2 H1 H2 Hn Hc. unfold strip_ws.
+  assert (forall x y, x <> [] -> (forall c, In c x -> is_ws c = false) -> lstrip_ws (x ++ y) = x ++ y) as X.
+  { intros x y Hx Hxc. destruct x as [|c x]; [congruence|]. simpl. rewrite Hxc by (left; reflexivity). reflexivity. }
+  rewrite lstrip_ws_app by assumption. rewrite X by assumption.
+  rewrite rev_app_distr. rewrite lstrip_ws_app by (apply forallb_rev; assumption).
+  rewrite <- (app_nil_r (rev core)). rewrite X.
+  - rewrite app_nil_r. apply rev_involutive.
+  - intro E. apply Hn. rewrite <- (rev_involutive core), E. reflexivity.
+  - intros c I. apply Hc. apply in_rev. assumption.
+Qed.
+
+Lemma parse_render : forall t, wf_tspec t -> parse_spec (render t) = Some (sd t, ed t).
+Proof.
+  intros t (H1 & Hs & He & H2). unfold parse_spec, render.
+  rewrite strip_ws_core; try assumption.
+  - rewrite partition_digits; [rewrite Hs, He; reflexivity|assumption|].
+    intros c D. apply digit_facts. exact D.
+  - destruct (sd t); discriminate.
+  - intros c I. apply in_app_or in I as [I|[I|I]].
+    + apply digit_facts. exact (all_digits_forall _ Hs c I).
+    + subst. reflexivity.
+    + apply digit_facts. exact (all_digits_forall _ He c I).
+Qed.
+
+Lemma render_no_comma : forall t, wf_tspec t -> ~ In COMMA (render t).
+Proof.
+  intros t (H1 & Hs & He & H2) I. unfold render in I.
+  assert (forall w, forallb is_ws w = true -> ~ In COMMA w) as W.
+  { intros w Hw J. rewrite forallb_forall in Hw. apply Hw in J. discriminate. }
+  assert (forall s, all_digits s = true -> ~ In COMMA s) as D.
+  { intros s Hd J. apply (all_digits_forall _ Hd) in J. discriminate. }
+  apply in_app_or in I as [I|I]; [exact (W _ H1 I)|].
+  apply in_app_or in I as [I|I]; [|exact (W _ H2 I)].
+  apply in_app_or in I as [I|[I|I]]; [exact (D _ Hs I)|discriminate|exact (D _ He I)].
+Qed.
+
+Lemma split_join_comma : forall l, Forall (fun s => ~ In COMMA s) l -> l <> [] ->
+  split_on COMMA (join_comma l) = l.
+Proof.
+  induction l as [|a r IH]; intros H Hn; [congruence|].
+  inversion H as [|? ? Ha Hr]; subst.
+  destruct r as [|b r]; [apply split_on_id; exact Ha|].
+  change (join_comma (a :: b :: r)) with (a ++ COMMA :: join_comma (b :: r)).
+  rewrite split_on_app, (split_on_id COMMA a Ha), IH by (assumption || discriminate). reflexivity.
+Qed.
+
+Lemma partition_notin : forall d a b, ~ In d a -> partition_at d (a ++ d :: b) = Some (a, b).
+Proof.
+  intros d a b H. induction a as [|c a IH]; simpl.
+  - rewrite N.eqb_refl. reflexivity.
+  - destruct (c =? d)%N eqn:E.
+    + apply N.eqb_eq in E. subst. exfalso. apply H. left. reflexivity.
+    + rewrite IH; [reflexivity|]. intro. apply H. right. assumption.
+Qed.
+
+Lemma int_of_nil_iff : forall s, all_digits s = true -> (isnil s = true <-> int_of s = None).
+Proof.
+  intros s H. destruct s as [|c s]; split; intro X; try reflexivity; try discriminate X.
+  destruct (int_of_digits (c :: s) ltac:(discriminate) H) as [z [E _]]. rewrite E in X. discriminate X.
+Qed.
+
+Lemma loop_render : forall cl ts acc, Forall wf_tspec ts ->
+  ranges_loop cl (map render ts) acc = sem_loop cl ts acc.
+Proof.
+  intros cl ts. induction ts as [|t r IH]; intros acc H; [reflexivity|].
+  inversion H as [|? ? Ht Hr]; subst. simpl map. simpl ranges_loop. simpl sem_loop.
+  rewrite (parse_render t Ht). destruct Ht as (_ & Hs & He & _). unfold classify.
+  destruct (isnil (sd t)) eqn:Es.
+  - apply (int_of_nil_iff _ Hs) in Es as Es'. rewrite Es'. simpl negb. cbv iota.
+    destruct (isnil (ed t)) eqn:Ee.
+    + apply (int_of_nil_iff _ He) in Ee. rewrite Ee. reflexivity.
+    + destruct (int_of_digits (ed t) (isnil_false _ _ Ee) He) as [n [-> _]].
+      destruct ((n =? 0) || (cl =? 0)); apply IH; assumption.
+  - destruct (int_of_digits (sd t) (isnil_false _ _ Es) Hs) as [a [-> _]]. simpl negb. cbv iota.
+    destruct (isnil (ed t)) eqn:Ee.
+    + apply (int_of_nil_iff _ He) in Ee as Ee'. rewrite Ee'.
+      destruct (a >=? cl) eqn:E1; [apply IH; assumption|].
+      destruct (cl - 1 <? a) eqn:E2; [lia|].
+      replace (Z.min (cl - 1) (cl - 1) + 1) with cl by lia. apply IH; assumption.
+    + destruct (int_of_digits (ed t) (isnil_false _ _ Ee) He) as [b [-> _]].
+      destruct (a >=? cl); [apply IH; assumption|].
+      destruct (b <? a); [reflexivity|apply IH; assumption].
+Qed.
+
+(* get_ranges on a whole header = the per-spec reading, left to right *)
+Theorem range_multi_exact : forall unit ts cl,
+  str_eqb (map lower_ascii (strip_ws unit)) BYTES = true -> ~ In EQ unit ->
+  ts <> [] -> Forall wf_tspec ts ->
+  get_ranges (Some (unit ++ EQ :: join_comma (map render ts))) cl = finish (sem_loop cl ts []).
+Proof.
+  intros unit ts cl Hu He Hn Hw. unfold get_ranges.
+  destruct (unit ++ EQ :: join_comma (map render ts)) as [|c h] eqn:Eh.
+  { destruct unit; discriminate. }
+  rewrite <- Eh. clear Eh c h. cbv zeta.
+  unfold split_unit. rewrite (partition_notin EQ unit _ He). simpl fst. simpl snd.
+  rewrite Hu. simpl negb. cbv iota.
+  rewrite split_join_comma.
+  - rewrite loop_render by assumption. unfold finish.
+    destruct (sem_loop cl ts []); reflexivity.
+  - apply Forall_forall. intros s I. apply in_map_iff in I as [t [<- It]].
+    apply render_no_comma. rewrite Forall_forall in Hw. apply Hw. assumption.
+  - destruct ts; [congruence|discriminate].
+Qed.
+
+(* ... and that reading is: void as soon as one spec is invalid, else the satisfiable slices
+   in request order, first occurrences only *)
+Definition is_invalid (cl : Z) (t : tspec) : bool :=
+  match classify cl t with VInvalid => true | _ => false end.
+Definition slices (cl : Z) (ts : list tspec) : list (Z * Z) :=
+  flat_map (fun t => match classify cl t with VSlice p => [p] | _ => [] end) ts.
+Definition dedup_from (acc l : list (Z * Z)) : list (Z * Z) := fold_left (fun a p => add_unique p a) l acc.
+
+Theorem sem_loop_spec : forall cl ts acc,
+  sem_loop cl ts acc = if existsb (is_invalid cl) ts then RIgnore else RList (dedup_from acc (slices cl ts)).
+Proof.
+  intros cl ts. induction ts as [|t r IH]; intros acc; [reflexivity|].
+  simpl. unfold is_invalid at 1. destruct (classify cl t) as [| |p]; simpl; [apply IH|reflexivity|apply IH].
+Qed.
+
+Lemma add_unique_in : forall x p acc, In x (add_unique p acc) <-> In x acc \/ x = p.
+Proof.
+  intros x p acc. unfold add_unique. destruct (existsb (pair_eqb p) acc) eqn:E.
+  - split; [auto|]. intros [H| ->]; [assumption|].
+    apply existsb_exists in E as [y [Hy Ey]]. apply pair_eqb_eq in Ey. subst. assumption.
+  - rewrite in_app_iff. simpl. split; intros [H|H]; auto. destruct H; [subst; auto|contradiction].
+Qed.
+
+Theorem dedup_spec : forall l acc, NoDup acc ->
+  NoDup (dedup_from acc l) /\ forall x, In x (dedup_from acc l) <-> In x acc \/ In x l.
+Proof.
+  induction l as [|p l IH]; intros acc Hn; simpl.
+  - split; [assumption|]. intros x. tauto.
+  - destruct (IH (add_unique p acc) (add_unique_nodup p acc Hn)) as [H1 H2].
+    split; [assumption|]. intros x. rewrite H2, add_unique_in. intuition (subst; auto).
+Qed.
